@@ -274,7 +274,8 @@ func (w *pworld) rerun() bool {
 	w.stopRun = nil
 	w.runLoop()
 	w.dist["rerun"]++
-	fmt.Fprintf(w.w, "rerun %s\n", w.caseID)
+	st, dbs := w.summary() // Run is parked in its select (runLoop ends with a barrier): the state is at rest
+	fmt.Fprintf(w.w, "rerun %s st=%s db=%s\n", w.caseID, st, dbs)
 	return w.deadMsg == ""
 }
 
